@@ -282,6 +282,17 @@ pub fn explore(check: &'static dyn Check, seed: u64, tier: Tier, verif_dir: &str
             Tier::Thorough => 3000.0,
         });
     let nworkers = workers();
+    // determinism self-check: the same 256 cases, once on one thread and once on all of them
+    let self_n = 256u64.min(total as u64);
+    let d1 = digest_of(check, seed, tier, self_n, 1);
+    let d2 = digest_of(check, seed, tier, self_n, nworkers);
+    if d1 != d2 {
+        eprintln!(
+            "harness error: determinism self-check failed for {} (seed {}): {:016x} vs {:016x}",
+            check.id(), seed, d1, d2
+        );
+        return RunReport { exit_code: 2 };
+    }
     let chunk = 4096usize;
     let next = Arc::new(AtomicUsize::new(0));
     let stop = Arc::new(AtomicBool::new(false));
@@ -474,6 +485,7 @@ pub fn explore(check: &'static dyn Check, seed: u64, tier: Tier, verif_dir: &str
             "known_findings_replayed": known_replayed,
             "fixed_regressions_replayed": fixed_replayed,
             "violations_found_before_minimisation": nviol_total,
+            "determinism_selfcheck": {"cases": self_n, "workers_compared": [1, nworkers], "identical": true, "digest": format!("{:016x}", d1)},
         },
         "assumptions": [
             "the reference models/oracles in /verif/sim/src are correct (they are small and share no code with proto-vulcan)",
@@ -598,7 +610,12 @@ pub fn minimise(
 /// Print a digest of the first `n` cases' event logs (verdict, trace hash, step counts, answers
 /// compared). Two processes given the same seed must print the same digest.
 pub fn determinism_digest(check: &'static dyn Check, seed: u64, tier: Tier, n: u64) {
-    let nworkers = workers();
+    let digest = digest_of(check, seed, tier, n, workers());
+    println!("DIGEST check={} seed={} cases={} digest={:016x}", check.id(), seed, n, digest);
+}
+
+/// Digest of the event logs of the first `n` cases, computed with `nworkers` threads.
+pub fn digest_of(check: &'static dyn Check, seed: u64, tier: Tier, n: u64, nworkers: usize) -> u64 {
     let next = Arc::new(AtomicUsize::new(0));
     let out: Arc<Mutex<Vec<(u64, u64)>>> = Arc::new(Mutex::new(vec![]));
     let mut handles = vec![];
@@ -641,5 +658,5 @@ pub fn determinism_digest(check: &'static dyn Check, seed: u64, tier: Tier, n: u
     for (i, h) in v.iter() {
         digest = mix(&[digest, *i, *h]);
     }
-    println!("DIGEST check={} seed={} cases={} digest={:016x}", check.id(), seed, n, digest);
+    digest
 }
